@@ -24,6 +24,7 @@ package main
 import (
 	"bufio"
 	"bytes"
+	crand "crypto/rand"
 	"errors"
 	"flag"
 	"fmt"
@@ -544,6 +545,7 @@ func classifyErr(err error) string {
 
 type obs struct {
 	res, mc, pg, src, seen, in, after string
+	entropy                           string
 	cnt, n                            int
 	eof, flag                         bool
 	hasN, hasFlag                     bool
@@ -579,6 +581,9 @@ func (w *world) emit(op string, o obs) {
 	if o.seen != "" {
 		b.WriteString(" seen=" + o.seen)
 	}
+	if o.entropy != "" {
+		b.WriteString(" entropy=" + o.entropy)
+	}
 	if o.hasN {
 		fmt.Fprintf(&b, " n=%d eof=%v", o.n, o.eof)
 	}
@@ -592,6 +597,16 @@ func (w *world) emit(op string, o obs) {
 		b.WriteString(" after=" + o.after)
 	}
 	fmt.Fprintln(out, b.String())
+}
+
+// trickle hands out one byte per Read.
+type trickle struct{ r io.Reader }
+
+func (t trickle) Read(p []byte) (int, error) {
+	if len(p) == 0 {
+		return 0, nil
+	}
+	return t.r.Read(p[:1])
 }
 
 var callbackPanic = errors.New("reader callback panics")
@@ -748,7 +763,20 @@ func (w *world) exec(line string) {
 				if impl == "pm" && sh != nil {
 					sec, err = w.fac[impl].(*pm.SecretFactory).VerifCreateRandom(n, sh.randRead(w.rng))
 				} else {
+					// the process-wide random source trickles: one byte per Read, which an io.Reader may do
+					// (hardware RNGs, buffered readers); the secret must be filled all the same
+					old := crand.Reader
+					crand.Reader = trickle{old}
 					sec, err = w.fac[impl].CreateRandom(n)
+					crand.Reader = old
+					if w.real && err == nil && sec != nil && n >= 4 && flt == "" {
+						_ = sec.WithBytes(func(b []byte) error {
+							if len(b) >= 4 && allZero(b[1:]) {
+								o.entropy = "short"
+							}
+							return nil
+						})
+					}
 				}
 			}
 			o.res = classifyErr(err)
